@@ -729,12 +729,10 @@ func IsNilForMarshaler(v interface{}) bool {
 	case reflect.Uint, reflect.Uint8, reflect.Uint16, reflect.Uint32, reflect.Uint64, reflect.Uintptr:
 		return rv.Uint() == 0
 	case reflect.Float32, reflect.Float64:
-		return math.Float64bits(rv.Float()) == 0
-	case reflect.Interface, reflect.Map, reflect.Ptr, reflect.Func:
+		return rv.Float() == 0
+	case reflect.Interface, reflect.Ptr:
 		return rv.IsNil()
-	case reflect.Slice:
-		return rv.IsNil() || rv.Len() == 0
-	case reflect.String:
+	case reflect.Array, reflect.Map, reflect.Slice, reflect.String:
 		return rv.Len() == 0
 	}
 	return false
